@@ -368,8 +368,9 @@ class UnitRun:
                 if not tags:
                     tags = dflt
                 oid = cid
-                internal = kind in ('before-loop', 'loop-head', 'loop-tail', 'after-loop', 'before', 'after', 'at-start') \
-                    or kind.startswith('loop_')
+                explicit = bool(tags_of.get(cid, ([], None, None, None))[0]) and cid in self.gen.get('explicit_tagged', set())
+                internal = kind in ('before-loop', 'loop-head', 'loop-tail', 'after-loop', 'before', 'after', 'at-start', 'at-end') \
+                    or (kind.startswith('loop_') and not explicit)
                 if 'precondition' in msg and fn and owner_fn != fn:
                     oid = '%s@call:%s' % (fn, cid)
             else:
